@@ -2,7 +2,7 @@
    C12 is the reason the theorems of C01 / C02 / C13 / C14 are stated for EVERY layout (every list of
    fields over the attribute grammar) and not for the shipped list: this file restates them at that
    generality, with examples on layouts the shipped packets never use.  Statements only. *)
-From Zvt Require Import Base Length Cp437 Encoding Codec CodecTotal CodecFrame CodecRoundtrip CodecTags CodecFields.
+From Zvt Require Import Base Length Cp437 Encoding Codec CodecTotal CodecFrame CodecRoundtrip CodecTags CodecFields CodecCanon CanonClass CanonRoundtrip.
 From Coq Require Import Permutation.
 Open Scope N_scope.
 
@@ -13,6 +13,28 @@ Proof. exact dec_np. Qed.
 Theorem C12_generated_decoder_terminates : forall fuel ls e t tag bs, (depth t <= fuel)%nat ->
   dec fuel ls e t tag bs <> OutOfFuel.
 Proof. exact dec_fuel_sufficient. Qed.
+
+(* the generated pair is inverse for ANY struct definition (any list of fields over the attribute grammar,
+   any nesting) on every value of the decidable class `canon` (CanonClass.v): with a control field ... *)
+Theorem C12_generated_pair_inverse_commands : forall c v b, canon_cmd c v = Some b ->
+  enc_cmd c v = Ok b /\
+  forall fuel r, (depth_fields (c_fields c) <= S fuel)%nat -> dec_cmd fuel c (b ++ r) = Ok (v, r).
+Proof. exact canon_cmd_roundtrip. Qed.
+(* ... and without *)
+Theorem C12_generated_pair_inverse_plain : forall fs v g, canon_struct fs v = Some g ->
+  enc_struct fs v = Ok g /\
+  forall fuel, (depth_fields fs <= S fuel)%nat -> dec_plain fuel fs g = Ok (v, []).
+Proof. exact canon_struct_roundtrip. Qed.
+
+(* the unusual layout below, with its value, is in that class *)
+Example C12_ex_unusual_in_class :
+  canon_struct [
+    Fld "a" None (LLlv 2) EDefault (TStruct [Fld "x" None LEmpty EBigEndian (TPrim (PInt 2)); Fld "y" (Some 9) LTlv EHex (TOpt (TPrim PString))]);
+    Fld "b" (Some 65281) LTlv EBigEndian (TVec (TPrim (PInt 2)));
+    Fld "c" (Some 7936) (LFixed 2) EBcd (TOpt (TVec (TPrim (PInt 4))))]
+    (VRec [VRec [VInt 258; VSome (VStr [97; 98])]; VList [VInt 1; VInt 65535]; VSome (VList [VInt 1234])])
+  = Some [240; 245; 1; 2; 9; 1; 171; 255; 1; 2; 0; 1; 255; 1; 2; 255; 255; 31; 0; 18; 52].
+Proof. vm_compute. reflexivity. Qed.
 
 (* the generated pair is inverse on one frame, for every delimiting style / tag / inner codec *)
 Theorem C12_frame_inverse_partial : forall (A : Type) ls big tag (k : bytes -> res (A * bytes)) p v r,
@@ -52,5 +74,7 @@ Proof. eexists. split; [vm_compute; reflexivity|]. split; vm_compute; reflexivit
 Print Assumptions C12_generated_decoder_total.
 Print Assumptions C12_generated_decoder_terminates.
 Print Assumptions C12_frame_inverse_partial.
+Print Assumptions C12_generated_pair_inverse_commands.
+Print Assumptions C12_generated_pair_inverse_plain.
 Print Assumptions C12_generated_struct_decoder.
 Print Assumptions C12_bcd_fixed_field_inverse.
